@@ -85,6 +85,12 @@ check("C02", "exploration",
       "model-based property testing (rapid state machine + reference models) and history invariants in virtual time",
       "DESIGN.md §4 C02")
 
+check("C19", "exploration",
+      "Generated Subscribe / Unsubscribe / UnsubscribeAll / Publish / kill / restart scripts over several actors and event types run on the real runtime in virtual time; a reference model of the subscriber sets decides every publication (exactly the subscribers, exactly once), plus order per publisher, white-box table contents at quiescence and a final probe publication per type.",
+      "Sequential cases are exact; racing cases check the schedule-independent clauses only. Sampling of scripts and interleavings.",
+      "model-based property testing (rapid): reference model of subscriber sets vs the real event stream, virtual time, white-box table reads",
+      "DESIGN.md §4 C19")
+
 NOT_YET = {}
 
 def main():
